@@ -78,6 +78,7 @@ CHECKS = {
             dict(name="ingest", run="TestC12Ingest", checks=dict(quick=8000, thorough=40000), shards=dict(quick=1, thorough=8)),
             dict(name="subscribe", run="TestC12Subscribe", checks=dict(quick=4000, thorough=20000), shards=dict(quick=1, thorough=8)),
             dict(name="client", run="TestC12Client", checks=dict(quick=8000, thorough=40000), shards=dict(quick=1, thorough=8)),
+            dict(name="life", run="TestC12Life", checks=dict(quick=150, thorough=2000), shards=dict(quick=4, thorough=8)),
             dict(name="fuzz-notification", run="FuzzC12Notification", rapid=False, tiers=("thorough",), fuzz=dict(target="FuzzC12Notification", time=dict(thorough="60s")), timeout=dict(thorough=400)),
             dict(name="fuzz-subscribe-request", run="FuzzC12SubscribeRequest", rapid=False, tiers=("thorough",), fuzz=dict(target="FuzzC12SubscribeRequest", time=dict(thorough="45s")), timeout=dict(thorough=400)),
             dict(name="fuzz-subscribe-response", run="FuzzC12SubscribeResponse", rapid=False, tiers=("thorough",), fuzz=dict(target="FuzzC12SubscribeResponse", time=dict(thorough="60s")), timeout=dict(thorough=400)),
@@ -134,6 +135,7 @@ CHECKS = {
                               "Reconnect of an unknown name is exercised but its return value is not judged (the statement is silent about it)"],
         parts=[
             dict(name="random", run="TestC13Random", checks=dict(quick=2000, thorough=20000), shards=dict(quick=1, thorough=16)),
+            dict(name="overlap", run="TestC13Overlap", checks=dict(quick=500, thorough=8000), shards=dict(quick=4, thorough=16)),
         ],
     ),
     "C18": dict(
@@ -484,6 +486,7 @@ CHECKS = {
                               "all three Handler callbacks are set (nil callbacks are skipped by the code and cannot be observed)"],
         parts=[
             dict(name="random", run="TestC17Random", checks=dict(quick=20000, thorough=100000), shards=dict(quick=1, thorough=16)),
+            dict(name="reload", run="TestC17Reload", checks=dict(quick=150, thorough=1500), shards=dict(quick=4, thorough=16)),
         ],
     ),
     "C02": dict(
